@@ -41,10 +41,24 @@ Proof. exact call_unpatched_method. Qed.
 Theorem C20_unpatched_endpoint : forall pt s ep r, get ep (matches s) = None ->
   step pt s (MCall ep r) = (if pt then MPassthrough else MRefused, s).
 Proof. exact call_unpatched_endpoint. Qed.
-Theorem C20_batch : forall pt s ep rs t b, get ep (matches s) = Some t ->
+(* (no element served by a patch whose serving raises: then the exception leaves the loop, see C20_raising) *)
+Theorem C20_batch : forall pt s ep rs t b, get ep (matches s) = Some t -> no_raise s ep rs = true ->
   batch_extend resp_id batch_empty (fst (calls_for s ep rs)) = Ok b ->
   step pt s (MBatch ep rs) = (MReply (JArr (map resp_to_json (fst (calls_for s ep rs)))), snd (calls_for s ep rs)).
 Proof. exact batch_elementwise. Qed.
+
+(* a patch whose serving raises has been USED all the same: the exception reaches the caller, the queue has rotated (a
+   once-patch is gone) and the call is recorded *)
+Theorem C20_raising : forall pt s ep r t p rest, wfm s ->
+  get ep (matches s) = Some t -> get (r_method r) t = Some (p :: rest) -> p_kind p = PRaise ->
+  fst (step pt s (MCall ep r)) = MRaised
+  /\ patches (snd (step pt s (MCall ep r))) ep (r_method r) = (if p_once p then rest else rest ++ [p])
+  /\ calls (snd (step pt s (MCall ep r))) = record_call (calls s) ep (r_method r) (r_params r).
+Proof. exact call_raising. Qed.
+(* replace with a Python index: idx < 0 counts from the end; out of range changes nothing *)
+Theorem C20_replace_index : forall idx n k, norm_index idx n = Some k ->
+  ((0 <= idx)%Z /\ k = Z.to_nat idx) \/ ((idx < 0)%Z /\ (0 <= Z.of_nat n + idx)%Z /\ k = Z.to_nat (Z.of_nat n + idx)).
+Proof. exact norm_index_spec. Qed.
 
 Example C20_ex :
   let p v o := {| p_kind := PResult (JStr v); p_once := o; p_id := None |} in
